@@ -34,7 +34,14 @@ pub fn level_of(id: &str) -> &'static str {
     }
 }
 
+/// Properties whose thorough tier starts more applications (thread pools) than one process has threads for.
+pub const CHUNKED_THOROUGH: [&str; 6] = ["C01", "C04", "C11", "C12", "C17", "C20"];
+
 pub fn run(ctx: &Ctx) -> bool {
+    if ctx.chunk.is_none() && ctx.tier == crate::engine::Tier::Thorough && CHUNKED_THOROUGH.contains(&ctx.id.as_str()) {
+        crate::engine::run_chunked(ctx, 16);
+        return true;
+    }
     match ctx.id.as_str() {
         "C01" => c01::run(ctx),
         "C02" => c02::run(ctx),
@@ -124,6 +131,21 @@ pub fn worker_main(args: &[String]) -> i32 {
     match args.first().map(|s| s.as_str()) {
         Some("parsers") => crate::engine::worker::worker_loop(targets::parser_target),
         Some("c08sched") => c08_sched::worker_main(&args[1..]),
+        Some("chunk") => {
+            // hv worker chunk <ID> <tier> <k> <n>
+            let id = args.get(1).cloned().unwrap_or_default();
+            let tier = if args.get(2).map(|s| s.as_str()) == Some("thorough") { crate::engine::Tier::Thorough } else { crate::engine::Tier::Quick };
+            let k: usize = args.get(3).and_then(|s| s.parse().ok()).unwrap_or(0);
+            let n: usize = args.get(4).and_then(|s| s.parse().ok()).unwrap_or(1);
+            let seed: u64 = std::env::var("VERIF_SEED").ok().and_then(|s| s.trim().parse::<u64>().ok()).unwrap_or(20260928);
+            crate::engine::quiet_panics();
+            let mut ctx = Ctx::new(&id, tier, seed, level_of(&id));
+            ctx.chunk = Some((k, n));
+            ctx.evidence_path = Some(format!("/verif/target/chunk-{}-{}.json", id, k));
+            ctx.replay_tag = "chunk-";
+            run(&ctx);
+            ctx.finish()
+        }
         Some("c20fd") => c20::fd_worker(&args[1..]),
         _ => 2,
     }
